@@ -380,6 +380,10 @@ ParScn == {s \in RespScn : ~s.short}
 ParScnQuick == {s \in ParScn : s.gzd = 7 /\ s.status = 200 /\ ~s.rsahdr /\ s.bsize = 100 /\ s.bframing # "close" /\ s.bmem = 1}
 ParScnFull  == {s \in ParScn : s.gzd = 7 /\ s.status = 200 /\ s.bmem = 1}
 
+(* requests in flight at the same time (module ProxyMsgParReq): requests with a body that are not retried *)
+ParReqScn == {s \in ReqScnOf({"default"}, AdaptorKinds, {FALSE}, {1}, {1}, {"min"}, {"cl", "chunked"}, {1}) :
+                 s.fails = 0 /\ s.addr = "ip" /\ ~s.keepHost}
+
 DefaultReqScn == [addr |-> "ip", keepHost |-> FALSE, lb |-> "default", ra |-> "none", rahdr |-> FALSE, reqMode |-> "buf", path |-> 1,
                   query |-> 1, hshape |-> "min", rbody |-> "none", renc |-> "identity", rmem |-> 1, fails |-> 0]
 DefaultRespScn == [comp |-> "off", rsa |-> "none", rsahdr |-> FALSE, respMode |-> "buf", ae |-> "absent", head |-> FALSE,
